@@ -203,6 +203,13 @@ def random_program(seed, idx, **kw):
     g = Gen(rnd, max_nodes=kw.pop('max_nodes', rnd.randint(4, 9)), **kw)
     p = g.build()
     p['name'] = 'gen_%d_%d' % (seed, idx)
+    # a quarter of the programs declare some nodes the reusable way (build_node + constant dependency); drawn from
+    # a separate stream so that the shapes of a seed stay what they were
+    rnd2 = random.Random('generic/%d/%d' % (seed, idx))
+    if rnd2.random() < 0.25:
+        for n in p['nodes']:
+            if n['params'] and rnd2.random() < 0.5:
+                n['generic'] = True
     return p
 
 
@@ -210,9 +217,14 @@ def plain_shapes(seed, count, max_nodes=7):
     out = []
     for i in range(count):
         rnd = random.Random('plain/%d/%d' % (seed, i))
-        g = Gen(rnd, max_nodes=rnd.randint(3, max_nodes), features=(), modes=True)
+        # every third shape has retrying / failing nodes (still plain Input dependencies)
+        g = Gen(rnd, max_nodes=rnd.randint(3, max_nodes), features=('retry', 'fail') if i % 3 == 2 else (), modes=True)
         p = g.build()
         p['name'] = 'plain_%d_%d' % (seed, i)
+        rnd2 = random.Random('cotag/%d/%d' % (seed, i))
+        for n in p['nodes']:
+            if n['mode'] == 'coro' and rnd2.random() < 0.3:
+                n['cotag'] = True
         p['tags'] = ['plain', 'gen']
         out.append(p)
     return out
